@@ -1,1 +1,112 @@
+/* C19: printf_format + do_printf_* against ISO C, byte for byte, on enumerated directive families (class B).
+ * Everything in a run is concrete (directive, arguments, expected bytes from the host C library computed at generation time, see gen.py):
+ * CBMC executes the lowered frigg code exhaustively for each case and compares what reaches the sink with the expected bytes. */
+unsigned frgv_assert_hook_hits;
+#define FRGV_CANARY() __CPROVER_assert(0, "canary: end of harness reachable")
+#ifndef C19_BATCH
+#define C19_BATCH 0
+#endif
+/* ---- sink: bounded buffer; the order of appends is the order of the bytes */
+#define OUTMAX 200
+static char out[OUTMAX]; static int outlen; static _Bool out_overflow;
+void frgv_vsink_append_0(struct frgv_vsink *this, char c) { if (outlen < OUTMAX) out[outlen++] = c; else out_overflow = 1; }
+void frgv_vsink_append_1(struct frgv_vsink *this, char *s) { for (int i = 0; s[i] != 0; i++) frgv_vsink_append_0(this, s[i]); }
+/* ---- variadic arguments of the current case */
+#ifndef C19_NCASES
+struct c19_case_dummy_ { int x; };
+#endif
+static const struct c19_case *cur; static int va_used;
+static long long va_islot[4]; static void *va_pslot[4];
+void *frgv_va_next(unsigned long size, int is_pointer)
+{
+	__CPROVER_assert(va_used < cur->nargs, "C19/C20: a variadic argument beyond those supplied is taken");
+	int k = va_used++;
+	if (is_pointer) { va_pslot[k] = cur->args[k].kind == 1 ? (void *)cur->args[k].s : (void *)(unsigned long)cur->args[k].i; return &va_pslot[k]; }
+	va_islot[k] = cur->args[k].i; return &va_islot[k];
+}
+/* ---- the agent, as a user writes it (tests/tests.cpp has the same shape) */
+struct res frgv_vagent_op_call_0(struct frgv_vagent *this, char c) { frgv_vsink_append_0(this->sink_, c); struct res r; r.e_ = frg_format_error_success; return r; }
+struct res frgv_vagent_op_call_1(struct frgv_vagent *this, char *c, unsigned long n) { for (unsigned long i = 0; i < n; i++) frgv_vsink_append_0(this->sink_, c[i]); struct res r; r.e_ = frg_format_error_success; return r; }
+struct res frgv_vagent_op_call_2(struct frgv_vagent *this, char t, struct fo *opts, frg_printf_size_mod szmod)
+{
+	struct res r; r.e_ = frg_format_error_success;
+	if (t == 'c' || t == 's' || t == 'p') frg_do_printf_chars__frgv_vsink(this->sink_, t, opts, szmod, this->vsp_);
+	else { struct lo l; lo_ctor_default(&l); frg_do_printf_ints__frgv_vsink(this->sink_, t, opts, szmod, this->vsp_, l); }
+	return r;
+}
+#ifdef C19_NCASES
+void h_c19_printf(void)
+{
+	for (int ci = 0; ci < C19_NCASES; ci++) {
+#ifdef C19_ONLY
+		if (ci != C19_ONLY) continue;
+#endif
+		cur = &c19_cases[ci]; va_used = 0; outlen = 0; out_overflow = 0;
+		union frg_arg arg_list[9];
+		struct vas vs; vs.arg_list = arg_list; vs.num_args = 0;
+		struct frgv_vsink sink; struct frgv_vagent agent; agent.sink_ = &sink; agent.vsp_ = &vs;
+		struct res r = frg_printf_format__frgv_vagent(agent, (char *)cur->fmt, &vs);
+		_Bool same = (outlen == cur->wantlen) && !out_overflow;
+		for (int i = 0; i < cur->wantlen; i++) if (i < outlen && out[i] != cur->want[i]) same = 0;      /* wantlen is concrete */
+		__CPROVER_assert(r.e_ == frg_format_error_success, "printf_format succeeds");
+		__CPROVER_assert(same, "C19: the bytes appended to the sink are exactly what ISO C printf prescribes for this directive and these arguments");
+		__CPROVER_assert(va_used == cur->nargs, "C19: exactly the supplied arguments are consumed");
+	}
+	FRGV_CANARY();
+}
+#endif
 
+/* ---- fmt(): {}-specs rendered as documented, malformed and out-of-range specs echoed unchanged (cases from gen.py: fmt_cases) */
+#ifdef C19_NFCASES
+void h_c19_fmt(void)
+{
+	for (int ci = 0; ci < C19_NFCASES; ci++) {
+		const struct c19_fcase *c = &c19_fcases[ci]; outlen = 0; out_overflow = 0;
+		struct sv f; f._pointer = (char *)c->fmt; f._length = c->fmtlen;
+		int x = c->x; char *str = "ab"; struct frgv_vsink sink;
+		struct frg_detail__fmt_impl_int_R_const_char_PR o = frg_fmt__int_R_const_char_PR(f, &x, &str);
+		frg_format__frg_detail__fmt_impl_int_R_const_char_PR__frgv_vsink(&o, &sink);
+		_Bool same = (outlen == c->wantlen) && !out_overflow;
+		for (int i = 0; i < c->wantlen; i++) if (i < outlen && out[i] != c->want[i]) same = 0;
+		__CPROVER_assert(same, "C19: fmt() renders its {}-specs as documented and echoes malformed or out-of-range specs unchanged");
+	}
+	FRGV_CANARY();
+}
+#endif
+
+/* ---- stack_buffer_logger<Emit, 16>: all text reaches the back end complete and in order through the fixed-size chunking.
+ * LOG_LEN arbitrary non-NUL characters followed by an integer, then endlog; every chunk handed to the back end is NUL-terminated and shorter
+ * than the buffer; the concatenation of the chunks is the message (class B in the message length, content symbolic) */
+#ifndef LOG_LEN
+#define LOG_LEN 15
+#endif
+static char got[LOG_LEN + 40]; static int gotlen; static int chunks;
+void frgv_vemit_op_call(struct frgv_vemit *this, char *msg)
+{
+	int n = 0;
+	while (n < 16 && msg[n] != 0) n++;
+	__CPROVER_assert(n < 16, "C19: every chunk handed to the logging back end is NUL-terminated within the buffer");
+	for (int i = 0; i < n; i++) { if (gotlen < (int)sizeof(got)) got[gotlen] = msg[i]; gotlen++; }
+	chunks++;
+}
+unsigned nondet_uint(void);
+void h_c19_logger(void)
+{
+	char msg[LOG_LEN + 1];
+	for (int i = 0; i < LOG_LEN; i++) { msg[i] = (char)nondet_uint(); __CPROVER_assume(msg[i] != 0); }
+	msg[LOG_LEN] = 0;
+	struct sbl logger; memset(&logger, 0, sizeof(logger));
+	struct sbl_item it; memset(&it, 0, sizeof(it));
+	sbl_op_call(&it, &logger);
+	char *m = msg; int x = 12345;
+	sbl_item_op_shl__const_char_PR(&it, &m);
+	sbl_item_op_shl__int_R(&it, &x);
+	struct frg_endlog_t e;
+	sbl_item_op_shl_3(&it, e);
+	sbl_item_dtor(&it);
+	__CPROVER_assert(gotlen == LOG_LEN + 5, "C19: no character is lost or duplicated at a chunk boundary");
+	for (int i = 0; i < LOG_LEN; i++) __CPROVER_assert(got[i] == msg[i], "C19: the text arrives in order");
+	__CPROVER_assert(got[LOG_LEN] == '1' && got[LOG_LEN + 1] == '2' && got[LOG_LEN + 2] == '3' && got[LOG_LEN + 3] == '4' && got[LOG_LEN + 4] == '5', "C19: the digits of the integer follow the text");
+	__CPROVER_assert(chunks == (LOG_LEN + 5) / 15 + 1 || chunks == (LOG_LEN + 5 + 14) / 15, "C19: the message is cut into chunks of at most 15 characters");
+	FRGV_CANARY();
+}
